@@ -12,7 +12,11 @@ Tie: operation sequences x every allocation position k (the k-th allocation call
 Search oracle (model-free, on the C output): no sanitizer report / signal; nothing live after the release
   (leak), no free of a dead pointer; an operation that reports failure leaves the abstract value of its object
   unchanged (strings by index with reference counts / elements / in-order node bytes / set of entries);
-  for arrays and trees every injected fault is reported by some operation.
+  for arrays and trees every injected fault is reported by some operation;
+  xattr writer (XW, session 3 extension): begin / add_kv / end / flush under every k-th-allocation fault - a failing end
+  assigns no index and leaves block tree, descriptor list, num_blocks and the finished pairs as they were (the pairs of the
+  set under construction compared as a multiset: end sorts them in place before it allocates), a failing flush changes
+  nothing and leaks nothing; one deterministic "big" sequence whose flush crosses a metadata block boundary.
   rbtree_copy of the default configuration (pool allocator): h_rbpool.c, a failed copy releases what it allocated.
 (generators adapted from props/C19/util_tie.py, which runs the same containers without allocation failure)
 """
@@ -296,23 +300,50 @@ def gen_ar(rnd, cid):
     return c
 
 
-def gen_xw(rnd, cid):
-    """the xattr writer's recording path: begin / add_kv with repeated keys, repeated values, the same pair again"""
-    aim = rnd.choice(["sets", "dups", "grow"])
+def gen_xw(rnd, cid, big=None):
+    """the xattr writer's recording path: begin / add_kv with repeated keys, repeated values, the same pair again /
+    end (a set seen before: the tree lookup finds it; a new one: rbtree_insert allocates a node; an empty one) / flush"""
+    aim = big or rnd.choice(["sets", "dups", "grow", "end", "end", "end"])
     c = UCase(cid, "XW", [], aim)
     nk = rnd.choice([1, 2, 3, 5, 7])
     keys = [b"user.k%d" % i for i in range(nk)] + [b"trusted.t", b"security.s"]
-    vals = [nz_bytes(rnd, rnd.choice([1, 2, 5, 9])) for _ in range(rnd.choice([1, 2, 4, 6]))]
-    for _ in range(rnd.choice([1, 2, 3])):
+    vals = [nz_bytes(rnd, rnd.choice([1, 2, 5, 9, 12])) for _ in range(rnd.choice([1, 2, 4, 6]))]
+    if aim == "big":                # the flush fills metadata blocks: the meta writer's transient block allocations
         c.add("A", "b")
-        for _ in range(rnd.choice([1, 2, 3, 5]) if aim != "grow" else rnd.choice([4, 7])):
-            k = rnd.choice(keys)
-            v = rnd.choice(vals) if aim != "grow" else nz_bytes(rnd, 3)
+        for i in range(3):
+            c.add("A", "a", keys[i % len(keys)].hex(), nz_bytes(rnd, 2750).hex())
+        c.add("A", "e")
+        c.add("A", "f")
+        c.add("A", "d")
+        return c
+    done = []                       # the add lists of earlier sets (aim "end": some are repeated -> duplicate blocks)
+    for _ in range(rnd.choice([1, 2, 3]) if aim != "end" else rnd.choice([3, 4, 6])):
+        c.add("A", "b")
+        if aim == "end" and done and rnd.random() < 0.45:
+            adds = list(rnd.choice(done))
+            rnd.shuffle(adds)       # the same set in another order: sorted, it is the same block
+        elif aim == "end" and rnd.random() < 0.12:
+            adds = []               # begin; end: 0xFFFFFFFF, no allocation
+        else:
+            adds = []
+            for _ in range(rnd.choice([1, 2, 3, 5]) if aim != "grow" else rnd.choice([4, 7])):
+                k = rnd.choice(keys)
+                v = rnd.choice(vals) if aim != "grow" else nz_bytes(rnd, 3)
+                adds.append((k, v))
+                if aim == "dups" and rnd.random() < 0.5:
+                    adds.append((k, v if rnd.random() < 0.5 else rnd.choice(vals)))
+            if rnd.random() < 0.1:
+                adds.append((rnd.choice([b"nodot", b"other.k", b"user."]), b"x"))      # refused before any allocation
+        done.append(adds)
+        for (k, v) in adds:
             c.add("A", "a", k.hex(), v.hex())
             c.add("A", "d")
-            if aim == "dups" and rnd.random() < 0.5:
-                c.add("A", "a", k.hex(), (v if rnd.random() < 0.5 else rnd.choice(vals)).hex())
-                c.add("A", "d")
+        # e: one call; E: a failed end is tried again
+        c.add("A", rnd.choice("eeE"))
+        c.add("A", "d")
+    if rnd.random() < 0.6 or aim == "big":
+        c.add("A", "f")
+        c.add("A", "d")
     if rnd.random() < 0.4:
         c.add("A", "x")
     return c
@@ -340,6 +371,9 @@ def base_cases(rnd, tier):
                 out.append(gen_st(rnd, cid))
             elif kind == "XW":
                 out.append(gen_xw(rnd, cid))
+                if len([c for c in out if c.kind == "XW"]) == cnt:
+                    cid += 1
+                    out.append(gen_xw(rnd, cid, big="big"))
             else:
                 out.append(gen_ar(rnd, cid))
     return out
@@ -434,8 +468,17 @@ def abstract(kind, line):
     if kind == "XW":
         # a failed add_kv may leave a new key / value string or a reference behind (not undone by the C code, see
         # XattrAlloc.v); what must not change is the recorded pairs
+        # a failed end has sorted the pairs of the set under construction in place (nothing else): compare them as a
+        # multiset; the finished pairs, the block tree (start / count / index of every node, in order), the list
+        # through the blocks and num_blocks must be what they were
         m = re.search(r"pairs\[ id=\S+ count=\d+ used=(\d+) start=(\d+) :([\d ]*)\]", line)
-        return (m.group(1), m.group(2), tuple(m.group(3).split())) if m else line
+        if not m:
+            return line
+        prs = m.group(3).split()
+        st = int(m.group(2))
+        t = re.search(r"tree\[ ks=\d+ ksp=\d+ vs=\d+ nb=(\d+) :([\d/ ]*)\] chain\[([\d ]*)\]", line)
+        tree = (t.group(1), tuple("/".join(x.split("/")[3:]) for x in t.group(2).split()), tuple(t.group(3).split())) if t else None
+        return (m.group(1), m.group(2), tuple(prs[:st]), tuple(sorted(prs[st:], key=int)), tree)
     return line
 
 
@@ -454,6 +497,10 @@ def oracle(case, lines):
         if a.startswith("BADFREE"):
             return ("ualloc:%s:bad-free" % case.kind, "case %d [%s, k=%s]: free of a pointer that is not live around '%s'"
                     % (case.cid, case.aim, case.kstr(), op))
+        if case.kind == "XW" and re.match(r"^[eE] .*ret=-\d+ out=ASSIGNED", a):
+            return ("ualloc:XW:failed-end-assigned-index",
+                    "case %d [%s, k=%s]: sqfs_xattr_writer_end reported failure but stored an index through its out pointer: '%s'"
+                    % (case.cid, case.aim, case.kstr(), a))
         if t == ["c"]:
             if FAIL_ANS.match(a):
                 failed = True
@@ -564,7 +611,8 @@ def run_leg(ctx, info, seed=None, only=None):
     priv = os.path.join(ctx.scratch, "h_utilalloc")
     shutil.copy2(exe, priv)
     try:
-        drv = core.build_model_driver("C13ualloc", "ExtractC13Util.v", os.path.join(HERE, "driver_ualloc.ml"))
+        # an absolute path: the extraction file of this leg lives next to its driver (see its header)
+        drv = core.build_model_driver("C13ualloc", "ExtractC13UtilEnd.v", os.path.join(HERE, "driver_ualloc.ml"))
     except RuntimeError as e:
         ctx.log("allocation-aware container model driver not built (%s): tie skipped, oracle only" % str(e)[:200])
         drv = None
@@ -609,7 +657,11 @@ def run_leg(ctx, info, seed=None, only=None):
                 continue
             stats["max_calls"] = max(stats["max_calls"], n)
             ks = list(range(1, n + 1))
-            if len(ks) > per:
+            if bc.aim == "big":
+                # three 2750 byte values: the key-value stream crosses a metadata block boundary (the meta writer's transient
+                # block allocation inside an append).  The model hashes long strings slowly: only the calls of end and flush
+                ks = ks[-10:]
+            elif len(ks) > per:
                 keep = set(ks[:4] + ks[-3:])
                 keep.update(rnd.sample(ks, per - len(keep)))
                 ks = sorted(keep)
@@ -617,7 +669,7 @@ def run_leg(ctx, info, seed=None, only=None):
                 cid += 1
                 cases.append(bc.with_k(cid, k))
             # several faults in one run: a random set of failing calls
-            for _ in range(2 if quick else 6):
+            for _ in range((2 if quick else 6) if bc.aim != "big" else 0):
                 ks2 = sorted(k for k in range(1, n + 1) if rnd.random() < 0.3)
                 if len(ks2) > 1:
                     cid += 1
@@ -625,7 +677,8 @@ def run_leg(ctx, info, seed=None, only=None):
         # every rehash fails (the table fills beyond its load bound, then completely: hash_table_insert returns NULL),
         # alone and together with one more failing call: discovered on the implementation (which calls those are
         # depends on the earlier failures), then replayed on both sides as an explicit set
-        disc = [bc.with_k(10 ** 6 + i, "@hash_table_rehash") for i, bc in enumerate(bases) if bc.kind in ("HT", "ST", "XW")]
+        disc = [bc.with_k(10 ** 6 + i, "@hash_table_rehash") for i, bc in enumerate(bases)
+                if bc.kind in ("HT", "ST", "XW") and bc.aim != "big"]
         rd = run_impl(priv, disc, tmo)
         for dc in disc:
             got = rd.get(dc.cid)
